@@ -68,7 +68,11 @@ pub fn c15_states(ctx: &Ctx, thorough: bool) -> Vec<(String, StateSpec)> {
         for (k, t) in garbage_kinds(ctx) {
             v.push((format!("meta-garbage({k})+foreign"), state(true, MetaSpec::Text { text: t.clone() }, Foreign)));
             v.push((format!("meta-garbage({k})+complete"), state(true, MetaSpec::Text { text: t.clone() }, Complete)));
-            v.push((format!("meta-garbage({k})+other-schema"), state(true, MetaSpec::Text { text: t.clone() }, ForeignSchema)));
+            if k != "version-only" {
+                // metadata naming *this* version over an index of another release's schema cannot
+                // arise (same version, same schema): asserting on it would ask more than the property
+                v.push((format!("meta-garbage({k})+other-schema"), state(true, MetaSpec::Text { text: t.clone() }, ForeignSchema)));
+            }
             v.push((format!("meta-garbage({k})+index-missing"), state(true, MetaSpec::Text { text: t }, Absent)));
         }
     } else {
@@ -242,6 +246,22 @@ fn random_fault(ctx: &Ctx, rng: &mut Rng) -> Vec<Fault> {
     out
 }
 
+/// Damage for directories that may hold an index of another release's schema: nothing that makes
+/// the metadata name *this* version (that combination cannot arise, see `c15_states`).
+pub fn random_damage_keeping_version_honest(ctx: &Ctx, rng: &mut Rng) -> Damage {
+    loop {
+        let d = random_damage(ctx, rng);
+        let claims_this_version = match &d {
+            Damage::StaleHash => true,
+            Damage::GarbleMeta { text } => text.contains(&format!("\"version\":{}", serde_json::to_string(&ctx.reference.version).unwrap())),
+            _ => false,
+        };
+        if !claims_this_version {
+            return d;
+        }
+    }
+}
+
 pub fn random_damage(ctx: &Ctx, rng: &mut Rng) -> Damage {
     match rng.below(8) {
         0 => Damage::DeleteMeta,
@@ -262,11 +282,12 @@ pub fn c15_random(ctx: &Ctx, rng: &mut Rng, seed: u64, quick: bool) -> History {
     let (tag, st) = rng.pick(&states).clone();
     let subset = if quick { qprime_subset(ctx, rng, 60) } else { qprime_subset(ctx, rng, 250) };
     let depth = rng.range(2, 4);
+    let other_schema = st.index == IndexSpec::ForeignSchema;
     let mut steps = vec![Step::Fabricate { state: st }];
     let mut label = format!("{tag}");
     for _ in 0..depth {
         if rng.chance(3, 10) {
-            let d = random_damage(ctx, rng);
+            let d = if other_schema { random_damage_keeping_version_honest(ctx, rng) } else { random_damage(ctx, rng) };
             label.push_str(&format!(" / {d:?}"));
             steps.push(Step::Damage { d });
         }
@@ -305,7 +326,7 @@ pub fn syscall_sites() -> Vec<(&'static str, usize, &'static str)> {
         ("mkdir", 6, "ENOSPC"),
         ("unlink", 24, "EIO"),
         ("unlinkat", 24, "EIO"),
-        ("flock", 8, "EWOULDBLOCK"),
+        ("flock", 8, "EAGAIN"),
         ("mmap", 70, "ENOMEM"),
     ]
 }
